@@ -646,7 +646,7 @@ def selftest():
 
 
 FAMILIES = [
-    Family("pandas_models", evaluate, strategy=lambda: G.strategy("pandas"), n_quick=170, n_thorough=4000,
+    Family("pandas_models", evaluate, strategy=lambda: G.strategy("pandas"), n_quick=150, n_thorough=4000,
            shards_quick=5, shards_thorough=12,
            required_labels=["verdict=accept", "verdict=reject", "override-field", "override-method", "alias",
                             "regex-field", "config-extras", "diamond", "method:parser", "optional",
